@@ -439,9 +439,10 @@ func (s *ReverseInnerSearcher) Find(haystack []byte) *Match {
 
 		// Step 2: Forward search on SUFFIX portion
 		// Find the end of the match (forward DFA finds longest match = greedy)
-		suffixHaystack := haystack[pos:]
-		matchEndRel := s.forwardDFA.Find(fwdCache, suffixHaystack)
-		if matchEndRel < 0 {
+		// Anchored at the candidate: the suffix part must match where the inner
+		// literal was found, not anywhere later in the haystack.
+		matchEnd := s.forwardDFA.SearchAtAnchored(fwdCache, haystack, pos)
+		if matchEnd < 0 {
 			// Suffix doesn't match - update minPreStart and try next candidate
 			minPreStart = pos + s.innerLen
 			searchStart = pos + 1
@@ -453,7 +454,6 @@ func (s *ReverseInnerSearcher) Find(haystack []byte) *Match {
 
 		// EARLY RETURN: First confirmed match is leftmost by construction!
 		// Forward DFA already finds the longest match from this start position.
-		matchEnd := pos + matchEndRel
 		return NewMatch(matchStart, matchEnd, haystack)
 	}
 
@@ -525,8 +525,7 @@ func (s *ReverseInnerSearcher) IsMatch(haystack []byte) bool {
 
 		if prefixMatches {
 			// Step 2: Check if suffix matches (forward DFA from inner position)
-			suffixHaystack := haystack[pos:]
-			if s.forwardDFA.IsMatch(fwdCache, suffixHaystack) {
+			if s.forwardDFA.SearchAtAnchored(fwdCache, haystack, pos) >= 0 {
 				// Both prefix and suffix match - pattern matches!
 				return true
 			}
@@ -616,9 +615,10 @@ func (s *ReverseInnerSearcher) findIndicesAtImpl(haystack []byte, at int, fwdCac
 		}
 
 		// Step 2: Forward search on SUFFIX portion
-		suffixHaystack := haystack[pos:]
-		matchEndRel := s.forwardDFA.Find(fwdCache, suffixHaystack)
-		if matchEndRel < 0 {
+		// Anchored at the candidate: the suffix part must match where the inner
+		// literal was found, not anywhere later in the haystack.
+		matchEnd := s.forwardDFA.SearchAtAnchored(fwdCache, haystack, pos)
+		if matchEnd < 0 {
 			// Suffix doesn't match - try next candidate
 			searchStart = pos + 1
 			if searchStart >= len(haystack) {
@@ -628,7 +628,6 @@ func (s *ReverseInnerSearcher) findIndicesAtImpl(haystack []byte, at int, fwdCac
 		}
 
 		// Found valid match
-		matchEnd := pos + matchEndRel
 		return matchStart, matchEnd, true
 	}
 
